@@ -23,6 +23,7 @@ Reject(clause) == PrintT(<<"REJECT", Tr.tid, l, clause>>) /\ NextTrace
 Accept == TLCSet(1, TLCGet(1) + 1) /\ NextTrace
 
 DeliverClause == IF ~L0!CanDeliver(nxt, Tr.n, Ev.ids) THEN "Deliver: not the next entries in order"
+                 ELSE IF Tr.bad > 0 /\ nxt + Len(Ev.ids) - 1 >= Tr.bad THEN "Deliver: a table was yielded from malformed data"
                  ELSE IF ~Ev.intact THEN "Deliver: an entry differs from the file's"
                  ELSE "ok"
 
@@ -38,7 +39,13 @@ Step == /\ t <= Len(Traces)
                             /\ nxt' = nxt + Len(Ev.ids) /\ lns' = Ev.lines /\ l' = l + 1 /\ t' = t
                        ELSE Reject(DeliverClause)
                   [] Ev.ev = "Stop" ->
-                       IF L0!CanStop(nxt, Tr.n) THEN Accept ELSE Reject("Stop: entries undelivered")
+                       IF Tr.bad > 0 THEN Reject("Stop: malformed input read to the end without an error")
+                       ELSE IF L0!CanStop(nxt, Tr.n) THEN Accept ELSE Reject("Stop: entries undelivered")
+                  [] Ev.ev = "Error" ->
+                       IF ~L0!CanError(nxt, Tr.bad) THEN Reject("Error: nothing is wrong with the data read so far")
+                       ELSE IF Ev.diagnosed /\ ~L0!LineInEntry(Tr.entryLines, Tr.bad, Ev.line)
+                            THEN Reject("Error: reported line is not a line of the offending record")
+                       ELSE Accept
                   [] Ev.ev = "Fail" ->
                        IF L0!CanFail(Tr.K, Tr.maxlen) THEN Accept
                        ELSE Reject("Fail: error although the chunk size holds every entry")
